@@ -20,7 +20,7 @@ func returnsSentinel(fn *ssa.Function, name string) bool {
 		return false
 	}
 	for _, r := range an.Returns(fn) {
-		for _, v := range an.ResolveAll(r.Results[idx]) {
+		for _, v := range an.Sources(an.RetVal(r, idx)) {
 			if u, ok := v.(*ssa.UnOp); ok && u.Op == token.MUL {
 				if g, ok := u.X.(*ssa.Global); ok && g.Name() == name {
 					return true
@@ -198,7 +198,8 @@ func checkC05(c *an.Ctx) {
 		if loop == nil {
 			c.Und("C05.1", an.Short(bp)+":stage-loop", bp.Pos(), "buildPipeline does not range over its stage definitions")
 		} else {
-			ex := &an.Explorer{P: p, Stop: loop.StopSet(), NoReturn: noReturn}
+			ex := &an.Explorer{P: p, NoReturn: noReturn}
+		loop.Bound(ex)
 			ex.Effect = func(in ssa.Instruction, st *an.State) string {
 				if call, ok := in.(*ssa.Call); ok {
 					for _, callee := range p.Callees(&call.Call) {
@@ -311,7 +312,7 @@ func onPathMarking(c *an.Ctx, det *ssa.Function, rule string) {
 		}
 		errExit := func(b *ssa.BasicBlock) bool {
 			if r, ok := b.Instrs[len(b.Instrs)-1].(*ssa.Return); ok && idx >= 0 {
-				return !an.IsNilConst(r.Results[idx])
+				return !an.IsNilConst(an.RetVal(r, idx))
 			}
 			return an.IsPanicExit(b)
 		}
